@@ -12,6 +12,7 @@ mod helpers;
 mod api;
 mod xadd;
 mod x86step;
+mod clifir;
 
 use std::io::{BufRead, Write};
 
@@ -35,6 +36,12 @@ fn run_line(line: &str) -> String {
         "xadd" => xadd::run(&toks),
         "exec" => exec::run(&toks),
         "x86" => x86step::run(&toks),
+        // debug: canonical Cranelift IR of a program (Mbuff VM; helper ids as a comma list or '-'), lines joined by " ;; "
+        "clifdump" if toks.len() >= 3 => { let p = rng::unhex(toks[1]).unwrap(); let ids: Vec<u32> = if toks[2] == "-" { vec![] } else { toks[2].split(',').map(|x| x.parse().unwrap()).collect() };
+            let raw = toks.len() > 3 && toks[3] == "raw"; let res = toks.len() > 3 && toks[3] == "res";
+            catch(move || { let mut vm = rbpf::EbpfVmMbuff::new(None).unwrap(); vm.set_verifier(|_| Ok(())).unwrap(); vm.set_program(&p).unwrap();
+                for k in ids { vm.register_helper(k, rbpf::helpers::gather_bytes).unwrap(); }
+                match vm.cranelift_compile() { Ok(()) => { let ir = vm.verif_clif_ir().unwrap(); if raw { ir.to_string() } else if res { clifir::canon_resolved(ir).join(" ;; ") } else { clifir::canon(ir).join(" ;; ") } } Err(_) => "compile-err".into() } }) }
         _ => "bad-op".into(),
     }
 }
